@@ -282,3 +282,75 @@ func localFreeExpr(p *packages.Package, e ast.Expr) string {
 	}
 	return out
 }
+
+// paramInstantiatedExpr renders e like localFreeExpr, but an identifier that
+// denotes a parameter of fd is replaced by the (local-free) argument fd is
+// given — when fd is unexported and has exactly one call site in its package.
+// "" when that is not the case.
+func paramInstantiatedExpr(p *packages.Package, fd *ast.FuncDecl, e ast.Expr) string {
+	fn, _ := p.TypesInfo.Defs[fd.Name].(*types.Func)
+	if fn == nil || fn.Exported() || fd.Type.Params == nil {
+		return ""
+	}
+	var sites []*ast.CallExpr
+	for _, f := range p.Syntax {
+		ast.Inspect(f, func(n ast.Node) bool {
+			if ce, ok := n.(*ast.CallExpr); ok && calleeOf(p, ce) == fn {
+				sites = append(sites, ce)
+			}
+			return true
+		})
+	}
+	if len(sites) != 1 {
+		return ""
+	}
+	args := map[types.Object]ast.Expr{}
+	i := 0
+	for _, fl := range fd.Type.Params.List {
+		for _, nmI := range fl.Names {
+			if i < len(sites[0].Args) {
+				args[p.TypesInfo.Defs[nmI]] = sites[0].Args[i]
+			}
+			i++
+		}
+	}
+	if i != len(sites[0].Args) {
+		return ""
+	}
+	repl := map[*ast.Ident]string{}
+	used := false
+	ast.Inspect(e, func(n ast.Node) bool {
+		id, ok := n.(*ast.Ident)
+		if !ok {
+			return true
+		}
+		o := p.TypesInfo.Uses[id]
+		if o == nil {
+			o = p.TypesInfo.Defs[id]
+		}
+		if a, isParam := args[o]; isParam {
+			repl[id] = localFreeExpr(p, a)
+			used = true
+			return true
+		}
+		v, ok := o.(*types.Var)
+		if !ok || v.IsField() || v.Parent() == nil || v.Parent() == v.Pkg().Scope() || v.Parent() == types.Universe {
+			return true
+		}
+		repl[id] = "‹" + types.TypeString(v.Type(), func(pk *types.Package) string { return pk.Name() }) + "›"
+		return true
+	})
+	if !used {
+		return ""
+	}
+	old := map[*ast.Ident]string{}
+	for id, r := range repl {
+		old[id] = id.Name
+		id.Name = r
+	}
+	out := types.ExprString(e)
+	for id, n := range old {
+		id.Name = n
+	}
+	return out
+}
